@@ -20,6 +20,7 @@ import LinVerif.Lemmas.C06Reset
 import LinVerif.Lemmas.C06Micro
 import LinVerif.Lemmas.C06Sync
 import LinVerif.Lemmas.C06Msync
+import LinVerif.Lemmas.C06Glue
 import LinVerif.Model.FanOutPark
 import LinVerif.Model.C06Woken
 import LinVerif.Generated.C06
@@ -846,7 +847,8 @@ theorem init_groups_tie :
 images, the expiry loop (Model/FanOutMicro.lean, Model/FanOutRepl.lean) -/
 
 open LinVerif.FanOut.Micro in
-/-- Consume ‖ Ack ‖ Sync ‖ Put at the granularity of single loads / stores of shared fields, the
+/-- Consume ‖ Ack ‖ Sync ‖ Put ‖ SetConsumedSeq-inside-the-window (the rewinder `wSet`, round 12) at the
+granularity of single loads / stores of shared fields, the
 lock regions of the pinned source (`access_tie`): from ANY state satisfying the sequential invariants,
 after ANY enabled schedule of micro-steps of the four threads (no explicit index reset) — at every
 intermediate point, threads mid-method included — the queue ack is in [-1, appended], every group has
@@ -872,14 +874,15 @@ theorem micro_consume_next (s : State) (hb : Base s) (ho : Order s) (ha : Above 
     (h : mrun Shape.pinned (MState.ofState s) ops = some ms) (hs : mstep Shape.pinned ms o = some ms')
     (k : Nat) (x x' : Group) (hx : ms.sh.grp k = some x) (hx' : ms'.sh.grp k = some x') :
     x'.consumed = x.consumed ∨
-    (o = .cStore ∧ x'.consumed = x.consumed + 1 ∧ x'.consumed ≤ ms'.sh.appended ∧ ms'.c = .stored k x'.consumed) := by
+    (o = .cStore ∧ x'.consumed = x.consumed + 1 ∧ x'.consumed ≤ ms'.sh.appended ∧ ms'.c = .stored k x'.consumed) ∨
+    (o = .wSet k x'.consumed ∧ x.ack ≤ x'.consumed ∧ x'.consumed ≤ ms.sh.appended ∧ x'.ack = x.ack) := by
   have h0 : Inv (MState.ofState s) :=
     Inv.ofState s hb.q.ackLo hb.q.ackLe (fun g x hx => ⟨ha g x hx, ho.live hb g x hx⟩) hb.grp
   have hi := Inv.run ops _ ms h0 hr h
   have hi' := hi.step hro hs
-  rcases consumed_step Shape.pinned hro hs k with e | ⟨e, hh, app, x0, hc, hx0, hle, hg', hc'⟩
+  rcases consumed_step Shape.pinned hro hs k with e | ⟨e, hh, app, x0, hc, hx0, hle, hg', hc'⟩ | ⟨n, x0, e, hx0, h1, h2, hg'⟩
   · left; rw [hx, hx'] at e; simpa using e
-  · right
+  · right; left
     rw [hx] at hx0; cases hx0
     rw [hx'] at hg'; cases hg'
     have hci := hi.ci
@@ -887,6 +890,56 @@ theorem micro_consume_next (s : State) (hb : Base s) (ho : Order s) (ha : Above 
     obtain ⟨x1, hx1, hh1, _⟩ := hci
     rw [hx] at hx1; cases hx1
     exact ⟨e, hh1, (hi'.ord k _ hx').2.2, hc'⟩
+  · right; right
+    rw [hx] at hx0; cases hx0
+    rw [hx'] at hg'; cases hg'
+    exact ⟨e, h1, h2, rfl⟩
+
+open LinVerif.FanOut.Micro in
+/-- (3) under the interleaving, rewinds included (round 12): a micro-step changes a group's acknowledged
+position only if it is the Store of Ack, and then to an `n` with ack ≤ n ≤ consumed for the positions of
+THAT moment — although `SetConsumedSeq` calls of another goroutine (`wSet`, the replicators' re-consume)
+may have pulled the consumed position back at any earlier point, also between this Ack's call and its
+read lock. An acknowledgement above the current consumed position (e.g. of a batch handed out before the
+rewind) is never stored: the window is the current one, not the high-water mark of what was handed out. -/
+theorem micro_ack_window (s : State) (hb : Base s) (ho : Order s) (ha : Above s) (ops : List MOp)
+    (hr : ∀ o ∈ ops, o.isReset = false) (ms ms' : MState) (o : MOp) (hro : o.isReset = false)
+    (h : mrun Shape.pinned (MState.ofState s) ops = some ms) (hs : mstep Shape.pinned ms o = some ms')
+    (k : Nat) (x x' : Group) (hx : ms.sh.grp k = some x) (hx' : ms'.sh.grp k = some x') :
+    x'.ack = x.ack ∨
+    (o = .aStore ∧ x.ack ≤ x'.ack ∧ x'.ack ≤ x.consumed ∧ x'.consumed = x.consumed) := by
+  have h0 : Inv (MState.ofState s) :=
+    Inv.ofState s hb.q.ackLo hb.q.ackLe (fun g x hx => ⟨ha g x hx, ho.live hb g x hx⟩) hb.grp
+  have hi := Inv.run ops _ ms h0 hr h
+  rcases ack_step Shape.pinned hro hs k with e | ⟨e, n, ts, hs', x0, hak, hx0, h1, h2, hg'⟩
+  · left; rw [hx, hx'] at e; simpa using e
+  · right
+    rw [hx] at hx0; cases hx0
+    rw [hx'] at hg'; cases hg'
+    have hai := hi.ai
+    rw [hak] at hai
+    obtain ⟨x1, hx1, hts, hhs⟩ := hai
+    rw [hx] at hx1; cases hx1
+    refine ⟨e, ?_, ?_, rfl⟩
+    · show x.ack ≤ n; omega
+    · show n ≤ x.consumed; omega
+
+open LinVerif.FanOut.Micro in
+/-- non-vacuity of the rewinder: group 0 at consumed 9 / ack 2 is rewound to 3 while an Ack(6) is on its
+way; the Ack takes its read lock after the rewind and is ignored (positions 3 / 2), a consume then hands
+out 4 again. The same Ack taking the lock BEFORE the rewind keeps the rewind out until it is done (6 ≤ 9 is
+stored; the rewind to 3 is then outside [6, appended]: not enabled as a reset-free step). -/
+example :
+    let ms0 : MState := { sh := { appended := 9, qack := 2, grp := fun k => if k = 0 then some ⟨9, 2, false⟩ else none,
+                                  pg := fun k => if k = 0 then some ⟨9, 2⟩ else none, names := [0] },
+                          c := .idle, a := .idle, y := .idle, r := .idle, outs := [] }
+    ((mrun Shape.pinned ms0 [.wSet 0 3, .aLock 0 6, .aStore, .cLoad 0, .cWake, .cLock, .cStore, .cPut]).map
+        (fun ms => ((ms.sh.grp 0).map (fun x => (x.consumed, x.ack)), ms.outs, ms.quiet)) =
+      some (some (4, 2), [(0, 4)], true)) ∧
+    ((mrun Shape.pinned ms0 [.aLock 0 6, .wSet 0 3]).isNone = true) ∧
+    ((mrun Shape.pinned ms0 [.aLock 0 6, .aStore, .aLoadC, .aPut1, .aPut2, .wSet 0 3]).isNone = true) ∧
+    ((mrun Shape.pinned ms0 [.aLock 0 6, .aStore, .aLoadC, .aPut1, .aPut2, .wSet 0 7]).map
+        (fun ms => (ms.sh.grp 0).map (fun x => (x.consumed, x.ack))) = some (some (7, 6))) := by decide
 
 open LinVerif.FanOut.Micro in
 /-- (4c) under the interleaving: a micro-step that moves the queue ack is the final step of Sync,
@@ -1076,6 +1129,215 @@ theorem expire_tie :
        "p.stopReplicator"] ∧
     Generated.C06.isExpireConds.getLast? = some "!consumerGroup.IsEmpty()" ∧
     Generated.C06.isExpireLoop = ["call:log.GetOrCreateConsumerGroup", "if:continue", "call:p.stopReplicator"] := by decide
+
+/-! ## Round 12: the replicator's glue (replica/replicator.go, Model/C06Glue.lean): index ↔ sequence
+conversions, the rewind `ResetReplicaIndex`, the replay at the start of a local replicator -/
+
+/-- the bodies of the replicator's conversion methods, of `partition.ResetReplicaIndex`, and the
+argument of the rewind in `NewLocalReplicator`, as they are in the source of this run -/
+theorem replicator_glue_tie :
+    Generated.C06.replReplicaIndexBody = ["return r.channel.ConsumerGroup.ConsumedSeq() + 1"] ∧
+    Generated.C06.replAckIndexBody = ["return r.channel.ConsumerGroup.AcknowledgedSeq()"] ∧
+    Generated.C06.replAppendIndexBody = ["return r.channel.ConsumerGroup.Queue().Queue().AppendedSeq() + 1"] ∧
+    Generated.C06.replResetReplicaIndexBody = ["r.channel.ConsumerGroup.SetConsumedSeq(idx - 1)"] ∧
+    Generated.C06.replResetAppendIndexBody = ["r.channel.ConsumerGroup.Queue().SetAppendedSeq(idx - 1)"] ∧
+    Generated.C06.replSetAckIndexBody = ["r.channel.ConsumerGroup.Ack(ackIdx)"] ∧
+    Generated.C06.replIgnoreMessageBody =
+      ["currentAck := r.AckIndex()", "if currentAck+1 == replicaIdx {", "r.SetAckIndex(replicaIdx)", "}"] ∧
+    Generated.C06.replConsumeBody = ["return r.channel.ConsumerGroup.Consume()"] ∧
+    Generated.C06.replPendingBody = ["return r.channel.ConsumerGroup.Pending()"] ∧
+    Generated.C06.localStartResetArgs = ["lr.AckIndex() + 1"] ∧
+    Generated.C06.partitionResetReplicaIndexBody = ["p.log.SetAppendedSeq(idx - 1)"] := by decide
+
+open LinVerif.FanOut.Glue in
+/-- `ResetReplicaIndex(idx)`: afterwards `ReplicaIndex() = idx`, the acknowledged position and every
+other group are untouched, the positions are written through; and it is an operation of the reset-free
+alphabet exactly when `AckIndex()+1 ≤ idx ≤ AppendIndex()` -/
+theorem reset_replica_index (v : Variant) (s : State) (g : Nat) (grp : Group) (idx : Int)
+    (hl : lookup s.live g = some grp) :
+    step v s (resetReplicaIndex g idx) = (s.putGroup g { grp with consumed := idx - 1 }, .done) ∧
+    (∀ grp', lookup (step v s (resetReplicaIndex g idx)).1.live g = some grp' →
+      replicaIndex grp' = idx ∧ ackIndex grp' = ackIndex grp) ∧
+    ((resetReplicaIndex g idx).okAt s ↔ ackIndex grp + 1 ≤ idx ∧ idx ≤ appendIndex s.q) := by
+  have hst : step v s (resetReplicaIndex g idx) = (s.putGroup g { grp with consumed := idx - 1 }, .done) := by
+    simp only [resetReplicaIndex, FanOut.step, hl]
+  refine ⟨hst, ?_, ?_⟩
+  · intro grp' h
+    rw [hst] at h
+    rw [putGroup_live_self] at h
+    cases h
+    exact ⟨by simp [replicaIndex], rfl⟩
+  · simp only [resetReplicaIndex, Op.okAt, ackIndex, appendIndex]
+    constructor
+    · intro h
+      have := h grp hl
+      omega
+    · intro h grp' hl'
+      rw [hl] at hl'; cases hl'
+      omega
+
+open LinVerif.FanOut.Glue in
+/-- The replay at the start of a local replicator ("reset replica index = ack index + 1, replay wal
+log") and every other rewind to a position `m` inside the window: from ANY state satisfying the
+invariants, for EVERY number `k` of messages ahead, `ResetReplicaIndex(m+1)` followed by `k` Consume calls
+hands out exactly m+1, m+2, …, m+k — in particular, for m = ack, every message the group has not
+acknowledged, once, in order —, each of them is readable (`Get` answers ok: GC cannot have removed it
+because the queue ack is at or below the group's ack), the acknowledged position stays where it was, and
+the queue is not touched. The rewind itself is inside the reset-free alphabet (`okAt`), so every theorem
+over `NoReset` histories applies to histories containing it. -/
+theorem replay_after_rewind (v : Variant) (s : State) (hb : Base s) (ha : Above s) (g : Nat) (grp : Group)
+    (hl : lookup s.live g = some grp) (hp : grp.paused = false) (m : Int) (hm : grp.ack ≤ m) (k : Nat)
+    (hk : m + k ≤ s.q.appended) :
+    (resetReplicaIndex g (m + 1)).okAt s ∧
+    results v s (resetReplicaIndex g (m + 1) :: List.replicate k (.consume g)) = .done :: seqFrom (m + 1) k ∧
+    (run v s (resetReplicaIndex g (m + 1) :: List.replicate k (.consume g))).q = s.q ∧
+    (∃ grp', lookup (run v s (resetReplicaIndex g (m + 1) :: List.replicate k (.consume g))).live g = some grp' ∧
+      grp'.consumed = m + k ∧ grp'.ack = grp.ack) ∧
+    (∀ i : Nat, i < k → (seqFrom (m + 1) k)[i]? = some (.val (m + 1 + i)) ∧ ∃ len, s.q.get (m + 1 + i) = .ok len) := by
+  obtain ⟨hst, _, hok⟩ := reset_replica_index v s g grp (m + 1) hl
+  have hm1 : m + 1 - 1 = m := by omega
+  rw [hm1] at hst
+  have hl1 := putGroup_live_self s g { grp with consumed := m }
+  obtain ⟨h1, h2, grp', h3, h4, h5, _⟩ := consume_replicate v g k (s.putGroup g { grp with consumed := m })
+    { grp with consumed := m } hl1 hp (by show m + (k : Int) ≤ s.q.appended; exact hk)
+  refine ⟨hok.mpr ⟨by simp only [ackIndex]; omega, by simp only [appendIndex]; omega⟩, ?_, ?_, ⟨grp', ?_, h4, h5⟩, ?_⟩
+  · simp only [results, hst]
+    rw [h1]
+  · simp only [run, hst]
+    rw [h2]; rfl
+  · simp only [run, hst]
+    exact h3
+  · intro i hi
+    refine ⟨seqFrom_get k (m + 1) i hi, hb.q.readable (m + 1 + i) ?_ ?_⟩
+    · have := ha g grp hl
+      omega
+    · omega
+
+open LinVerif.FanOut.Glue in
+/-- the start of a local replicator is that rewind with m = ack: it needs nothing but the ordering
+invariant to be inside the window -/
+theorem local_start_in_window (s : State) (hb : Base s) (ho : Order s) (g : Nat) (grp : Group)
+    (hl : lookup s.live g = some grp) :
+    localStart s g = [resetReplicaIndex g (grp.ack + 1)] ∧ ∀ o ∈ localStart s g, o.okAt s := by
+  have hls : localStart s g = [resetReplicaIndex g (grp.ack + 1)] := by simp [localStart, hl, ackIndex]
+  refine ⟨hls, ?_⟩
+  intro o ho'
+  rw [hls] at ho'
+  simp only [List.mem_singleton] at ho'
+  subst ho'
+  have := ho.live hb g grp hl
+  simp only [resetReplicaIndex, Op.okAt]
+  intro grp' hl'
+  rw [hl] at hl'; cases hl'
+  omega
+
+open LinVerif.FanOut.Glue in
+/-- `IgnoreMessage(idx)`: acknowledges `idx` exactly when it is the next one after the acknowledged
+position AND has been handed out (idx ≤ consumed: the window of `Ack`); in every other case the whole
+state is unchanged — after a rewind below `idx` in particular -/
+theorem ignore_message (v : Variant) (s : State) (g : Nat) (grp : Group) (idx : Int)
+    (hl : lookup s.live g = some grp) :
+    run v s (ignoreMessage s g idx) =
+      if grp.ack + 1 = idx ∧ idx ≤ grp.consumed then s.putGroup g { grp with ack := idx } else s := by
+  by_cases h1 : grp.ack + 1 = idx
+  · have hi : ignoreMessage s g idx = [.ack g idx] := by simp [ignoreMessage, hl, ackIndex, setAckIndex, h1]
+    rw [hi]
+    by_cases h2 : idx ≤ grp.consumed
+    · simp only [run, ack_inside v s g idx grp hl ⟨by omega, h2⟩, h1, h2, and_self, if_true]
+    · simp only [run, ack_window v s g idx grp hl (by omega), h1, h2, and_false, if_false]
+  · have hi : ignoreMessage s g idx = [] := by simp [ignoreMessage, hl, ackIndex, h1]
+    rw [hi]
+    simp [run, h1]
+
+open LinVerif.FanOut.Glue in
+/-- non-vacuity / the shapes: group 0 consumed up to 6, acknowledged 2; a local replicator starts
+(rewind to 2), four Consume calls hand out 3,4,5,6 again, all readable; IgnoreMessage(3) acknowledges 3,
+IgnoreMessage(5) (not the next one) and IgnoreMessage(4) after a rewind to 3 (not handed out again yet)
+change nothing -/
+example :
+    let s0 := run Variant.fixed State.init
+      ([.create 0] ++ List.replicate 8 (.append 5) ++ List.replicate 7 (.consume 0) ++ [.ack 0 2])
+    results Variant.fixed s0 (localStart s0 0 ++ List.replicate 4 (.consume 0)) = .done :: seqFrom 3 4 ∧
+    ((List.range 4).all fun i => (s0.q.get (3 + i) == .ok 5)) = true ∧
+    lookup (run Variant.fixed s0 (ignoreMessage s0 0 3)).live 0 = some { consumed := 6, ack := 3, paused := false } ∧
+    run Variant.fixed s0 (ignoreMessage s0 0 5) = s0 ∧
+    (let s1 := run Variant.fixed s0 [resetReplicaIndex 0 4, .ack 0 3]
+     lookup s1.live 0 = some { consumed := 3, ack := 3, paused := false } ∧ run Variant.fixed s1 (ignoreMessage s1 0 4) = s1) := by
+  decide
+
+/-- the skeleton of `remoteReplicator.IsReady` as far as it touches positions (source order; `[returns]` =
+the branch ends in a return) -/
+theorem remote_handshake_tie :
+    Generated.C06.remoteHandshake =
+      ["assign:localReplicaIdx := r.ReplicaIndex()", "assign:nextReplicaIdx := remoteLastReplicaAckIdx + 1",
+       "if:nextReplicaIdx == localReplicaIdx [returns]", "assign:appendIdx := r.AppendIndex()",
+       "assign:smallestAckIdx := r.AckIndex()", "case:remoteLastReplicaAckIdx < smallestAckIdx [returns]",
+       "assign:needResetReplicaIdx := smallestAckIdx + 1", "call:r.ResetReplicaIndex(needResetReplicaIdx)",
+       "case:nextReplicaIdx > appendIdx", "call:r.ResetAppendIndex(nextReplicaIdx)",
+       "call:r.ResetReplicaIndex(nextReplicaIdx)", "call:r.SetAckIndex(remoteLastReplicaAckIdx)",
+       "assign:newLocalReplicaIdx := r.ReplicaIndex()", "if:newLocalReplicaIdx == nextReplicaIdx [returns]"] := by decide
+
+open LinVerif.FanOut.Glue in
+/-- The remote replicator's handshake, follower not ahead of the leader's log (rAck ≤ appended): whatever the
+follower answered, every operation issued lies inside the reset-free alphabet (the rewind targets the window,
+the acknowledgement is inside [ack, consumed] of that moment), the queue is untouched, and afterwards the group is
+at consumed = ack = max(ack, rAck) — the next index sent is the first unacknowledged one — unless the follower was
+already in step (then nothing is issued). -/
+theorem handshake_positions (v : Variant) (s : State) (hb : Base s) (ho : Order s) (g : Nat) (grp : Group)
+    (hl : lookup s.live g = some grp) (rAck : Int) (hr : rAck ≤ s.q.appended) :
+    Valid v (fun s o => o.okAt s) s (handshakeOps s g rAck) ∧
+    (run v s (handshakeOps s g rAck)).q = s.q ∧
+    (rAck + 1 = replicaIndex grp → run v s (handshakeOps s g rAck) = s) ∧
+    (rAck + 1 ≠ replicaIndex grp →
+      lookup (run v s (handshakeOps s g rAck)).live g =
+        some { grp with consumed := (if rAck < grp.ack then grp.ack else rAck), ack := (if rAck < grp.ack then grp.ack else rAck) }) := by
+  have hord := ho.live hb g grp hl
+  by_cases h1 : rAck + 1 = replicaIndex grp
+  · have hops : handshakeOps s g rAck = [] := by simp [handshakeOps, hl, h1]
+    rw [hops]
+    exact ⟨trivial, rfl, fun _ => rfl, fun h => absurd h1 h⟩
+  · by_cases h2 : rAck < grp.ack
+    · have hops : handshakeOps s g rAck = [resetReplicaIndex g (grp.ack + 1)] := by
+        simp [handshakeOps, hl, h1, ackIndex, h2]
+      rw [hops]
+      obtain ⟨hst, _, hok⟩ := reset_replica_index v s g grp (grp.ack + 1) hl
+      have e : grp.ack + 1 - 1 = grp.ack := by omega
+      rw [e] at hst
+      refine ⟨⟨hok.mpr ⟨by simp only [ackIndex]; omega, by simp only [appendIndex]; omega⟩, trivial⟩, ?_, fun h => absurd h h1, fun _ => ?_⟩
+      · simp only [run, hst]; rfl
+      · simp only [run, hst, h2, if_true]
+        rw [putGroup_live_self]
+    · have hops : handshakeOps s g rAck = [resetReplicaIndex g (rAck + 1), setAckIndex g rAck] := by
+        have : ¬ (rAck + 1 > appendIndex s.q) := by simp only [appendIndex]; omega
+        simp [handshakeOps, hl, h1, ackIndex, h2, this]
+      rw [hops]
+      obtain ⟨hst, _, hok⟩ := reset_replica_index v s g grp (rAck + 1) hl
+      have e : rAck + 1 - 1 = rAck := by omega
+      rw [e] at hst
+      have hl1 := putGroup_live_self s g { grp with consumed := rAck }
+      have hst2 := ack_inside v (s.putGroup g { grp with consumed := rAck }) g rAck { grp with consumed := rAck } hl1
+        ⟨by show grp.ack ≤ rAck; omega, by show rAck ≤ rAck; omega⟩
+      refine ⟨⟨hok.mpr ⟨by simp only [ackIndex]; omega, by simp only [appendIndex]; omega⟩, ?_, trivial⟩, ?_,
+        fun h => absurd h h1, fun _ => ?_⟩
+      · rw [hst]; exact trivial
+      · simp only [run, hst, setAckIndex, hst2]; rfl
+      · simp only [run, hst, setAckIndex, hst2, h2, if_false]
+        rw [putGroup_live_self]
+
+open LinVerif.FanOut.Glue in
+/-- the handshake with a follower AHEAD of the leader's log (rAck > appended: "leader's lost old wal data"): an
+explicit index reset to rAck, after which queue and group are at rAck / rAck — shapes by `decide`: a follower in
+step, one behind the acknowledged position, one inside the window, one ahead of the log -/
+example :
+    let s0 := run Variant.fixed State.init
+      ([.create 0] ++ List.replicate 8 (.append 5) ++ List.replicate 7 (.consume 0) ++ [.ack 0 2])
+    handshakeOps s0 0 6 = [] ∧
+    lookup (run Variant.fixed s0 (handshakeOps s0 0 0)).live 0 = some { consumed := 2, ack := 2, paused := false } ∧
+    lookup (run Variant.fixed s0 (handshakeOps s0 0 4)).live 0 = some { consumed := 4, ack := 4, paused := false } ∧
+    handshakeOps s0 0 11 = [resetAppendIndex 12, resetReplicaIndex 0 12, setAckIndex 0 11] ∧
+    lookup (run Variant.fixed s0 (handshakeOps s0 0 11)).live 0 = some { consumed := 11, ack := 11, paused := false } ∧
+    (run Variant.fixed s0 (handshakeOps s0 0 11)).q.appended = 11 ∧ (run Variant.fixed s0 (handshakeOps s0 0 11)).q.ack = 11 := by
+  decide
 
 /-! ## non-vacuity: the hypotheses are satisfied by non-trivial histories -/
 
